@@ -149,6 +149,8 @@ class StmtMixin(object):
             return [e.val for e in v.entries]
         if isinstance(v, V) and v.hint is not None and v.hint.kind in ('list', 'tuple'):
             r = Val.r(v.t)
+            if isinstance(v.hint.elem, (list, tuple)) and len(v.hint.elem) == n:
+                self.assume(st, self.list_len(st, r) == n)      # declared tuple shape (data invariant)
             self.raise_exit(st, ValueError, self.list_len(st, r) != n, line)
             out = []
             for i in range(n):
